@@ -181,9 +181,38 @@ Proof.
   - intros (pm & Hpm & Hr). exists (pom_rules d mk pm). split; auto. now apply in_map.
 Qed.
 
+(* the statement of a rule for a row as the document-level rules have it, in both output formats: with N-TRIPLES the
+   statement is the graph-less projection and exists iff the statement is placed in a graph at all *)
+Definition rule_graph_opt (scfg : scfg) (rl : rule) (sr : srow) : option ustr :=
+  if is_plain (r_gk rl) && negb (ueqb (r_gv rl) Tables.c_rml_default_graph)
+  then opt_term TIri (spec_lex scfg (r_gk rl) (r_gv rl) TIri [] sr) else Some [].
+Definition doc_rule_line (scfg : scfg) (rl : rule) (sr : srow) : option ustr :=
+  match spec_parts scfg rl sr with
+  | None => None
+  | Some (s, p, o) =>
+      match rule_graph_opt scfg rl sr with
+      | None => None
+      | Some g => Some (if s_nquads scfg then (s ++ [32] ++ p ++ [32] ++ o) ++ [32] ++ g else s ++ [32] ++ p ++ [32] ++ o)
+      end
+  end.
+Lemma doc_rule_line_nquads scfg rl sr : s_nquads scfg = true -> doc_rule_line scfg rl sr = spec_rule_line scfg rl sr.
+Proof.
+  intro H. rewrite spec_rule_line_parts. unfold doc_rule_line, spec_graph_line, rule_graph_opt. rewrite H.
+  destruct (spec_parts scfg rl sr) as [[[s p] o]|]; reflexivity.
+Qed.
+Lemma doc_rule_line_ntriples scfg rl sr x : s_nquads scfg = false ->
+  (doc_rule_line scfg rl sr = Some x <-> spec_rule_line scfg rl sr = Some x /\ rule_graph_opt scfg rl sr <> None).
+Proof.
+  intro H. rewrite spec_rule_line_parts. unfold doc_rule_line, spec_graph_line. rewrite H.
+  destruct (spec_parts scfg rl sr) as [[[s p] o]|]; [|split; [discriminate|intros [X _]; discriminate]].
+  destruct (rule_graph_opt scfg rl sr); split; try discriminate; auto.
+  - intro E. split; auto. discriminate.
+  - intros [E _]. exact E.
+  - intros [_ X]. now contradiction X.
+Qed.
+
 Section TmEquiv.
   Variables (scfg : scfg) (fe : fenv) (doc : document) (tables : ustr -> stable) (d : document).
-  Hypothesis Hnq : s_nquads scfg = true.
 
   (* the statement of one (predicate map, object map with its language / datatype row, graph map) of a triples map *)
   Definition tuple_line (t : tmapdef) (stt : ttype) (p : tmap) (o : objmap) (ld : ldkind) (ldk : mkind) (ldv : ustr) (g : tmap) (sr : srow) : option ustr :=
@@ -192,26 +221,29 @@ Section TmEquiv.
     match spec_lex scfg (m_kind (o_tm o)) (m_value (o_tm o)) (spec_tt_object o) ldv sr with None => None | Some ol =>
     match suffix_of_row scfg ld ldk ldv sr with None => None | Some suffix =>
     match rule_graph_term scfg g sr with None => None | Some gt =>
-    Some ((render stt s ++ [32] ++ render TIri pl ++ [32] ++ render (spec_tt_object o) ol ++ suffix) ++ [32] ++ gt)
+    Some (if s_nquads scfg then (render stt s ++ [32] ++ render TIri pl ++ [32] ++ render (spec_tt_object o) ol ++ suffix) ++ [32] ++ gt
+          else render stt s ++ [32] ++ render TIri pl ++ [32] ++ render (spec_tt_object o) ol ++ suffix)
     end end end end end.
 
   Lemma rule_line_is_tuple t a stt p o ld ldk ldv g sr :
     plain_map (t_subj t) = true -> plain_map p = true -> plain_objmap o = true -> plain_graph g = true ->
-    spec_rule_line scfg (mk_rule t a stt (m_kind p) (m_value p) (m_kind (o_tm o)) (m_value (o_tm o)) (spec_tt_object o) ld ldk ldv (m_kind g) (m_value g) (o_joins o)) sr
+    doc_rule_line scfg (mk_rule t a stt (m_kind p) (m_value p) (m_kind (o_tm o)) (m_value (o_tm o)) (spec_tt_object o) ld ldk ldv (m_kind g) (m_value g) (o_joins o)) sr
     = tuple_line t stt p o ld ldk ldv g sr.
   Proof.
-    intros Hs Hp Ho Hg. unfold spec_rule_line, tuple_line, rule_graph_term, suffix_of_row.
+    intros Hs Hp Ho Hg. unfold doc_rule_line, spec_parts, spec_po, spec_po_gen, spec_suffix_of, rule_graph_opt, tuple_line, rule_graph_term, suffix_of_row.
     cbn [mk_rule r_sk r_sv r_stt r_pk r_pv r_ok r_ov r_ott r_ld r_ldk r_ldv r_gk r_gv].
     assert (Hom : plain_map (o_tm o) = true) by (unfold plain_objmap in Ho; now apply andb_true_iff in Ho as [Ho _]).
     assert (Hgm : plain_map g = true) by (unfold plain_graph in Hg; now apply andb_true_iff in Hg as [Hg _]).
-    rewrite (plain_map_undelimit _ Hs), (plain_map_undelimit _ Hp), (plain_map_undelimit _ Hom), (plain_map_undelimit _ Hgm), Hnq.
+    rewrite (plain_map_undelimit _ Hs), (plain_map_undelimit _ Hp), (plain_map_undelimit _ Hom), (plain_map_undelimit _ Hgm).
     destruct (spec_lex scfg (m_kind (t_subj t)) (m_value (t_subj t)) stt [] sr); auto.
+    destruct (spec_lex scfg (m_kind p) (m_value p) TIri [] sr); auto.
+    destruct (spec_lex scfg (m_kind (o_tm o)) (m_value (o_tm o)) (spec_tt_object o) ldv sr); auto.
+    destruct (match ld with LDNone => _ | LDLang => _ | LDDt => _ end); auto.
   Qed.
 End TmEquiv.
 
 Section TmEquiv2.
   Variables (scfg : scfg) (fe : fenv) (doc : document) (tables : ustr -> stable) (d : document).
-  Hypothesis Hnq : s_nquads scfg = true.
 
   Lemma spec_fuel_S : exists f, spec_fuel doc = S f.
   Proof. unfold spec_fuel. simpl. eauto. Qed.
@@ -221,9 +253,9 @@ Section TmEquiv2.
     exists s pm p pt o ot g,
       In s (subj_terms scfg fe doc tables (spec_fuel doc) t sr) /\ In pm (t_poms t ++ map class_pom (t_classes t)) /\ In p (p_preds pm) /\
       In pt (spec_terms scfg fe (m_kind p) (m_value p) TIri [] sr) /\ In o (p_objs pm) /\ In ot (obj_terms scfg fe doc tables (spec_fuel doc) t o sr) /\
-      In g (graph_terms scfg fe t pm sr) /\ x = (s ++ [32] ++ pt ++ [32] ++ ot) ++ [32] ++ g.
+      In g (graph_terms scfg fe t pm sr) /\ x = (if s_nquads scfg then (s ++ [32] ++ pt ++ [32] ++ ot) ++ [32] ++ g else s ++ [32] ++ pt ++ [32] ++ ot).
   Proof.
-    unfold tm_row_lines. rewrite Hnq. split.
+    unfold tm_row_lines. destruct (s_nquads scfg) eqn:Hnq; cbv beta iota; split.
     - intro H. apply in_flat_map in H as (s & Hs & H). apply in_flat_map in H as (pm & Hpm & H). apply in_flat_map in H as (p & Hp & H).
       apply in_flat_map in H as (pt & Hpt & H). apply in_flat_map in H as (o & Ho & H). apply in_flat_map in H as (ot & Hot & H).
       apply in_map_iff in H as (g & <- & Hg). exists s, pm, p, pt, o, ot, g. auto 10.
@@ -231,6 +263,14 @@ Section TmEquiv2.
       apply in_flat_map. exists s. split; auto. apply in_flat_map. exists pm. split; auto. apply in_flat_map. exists p. split; auto.
       apply in_flat_map. exists pt. split; auto. apply in_flat_map. exists o. split; auto. apply in_flat_map. exists ot. split; auto.
       apply in_map_iff. exists g. auto.
+    - intro H. apply in_flat_map in H as (s & Hs & H). apply in_flat_map in H as (pm & Hpm & H). apply in_flat_map in H as (p & Hp & H).
+      apply in_flat_map in H as (pt & Hpt & H). apply in_flat_map in H as (o & Ho & H). apply in_flat_map in H as (ot & Hot & H).
+      destruct (graph_terms scfg fe t pm sr) as [|g gs] eqn:Eg; [contradiction|]. destruct H as [<-|[]].
+      exists s, pm, p, pt, o, ot, g. rewrite Eg. repeat split; auto. now left.
+    - intros (s & pm & p & pt & o & ot & g & Hs & Hpm & Hp & Hpt & Ho & Hot & Hg & ->).
+      apply in_flat_map. exists s. split; auto. apply in_flat_map. exists pm. split; auto. apply in_flat_map. exists p. split; auto.
+      apply in_flat_map. exists pt. split; auto. apply in_flat_map. exists o. split; auto. apply in_flat_map. exists ot. split; auto.
+      destruct (graph_terms scfg fe t pm sr) as [|g0 gs]; [contradiction|]. now left.
   Qed.
 
   Lemma placed_graphs_plain t pm g : forallb plain_graph (t_sgraphs t) = true -> forallb plain_graph (p_graphs pm) = true ->
@@ -243,7 +283,7 @@ Section TmEquiv2.
 
   Theorem tm_lines_equiv t sr rs :
     plain_tm t = true -> base_rules_of d (prepare_tm t) = Ok rs ->
-    forall x, In x (tm_row_lines scfg fe doc tables t sr) <-> exists rl, In rl rs /\ spec_rule_line scfg rl sr = Some x.
+    forall x, In x (tm_row_lines scfg fe doc tables t sr) <-> exists rl, In rl rs /\ doc_rule_line scfg rl sr = Some x.
   Proof.
     intros Hpl Hb x. unfold plain_tm in Hpl. rewrite !andb_true_iff in Hpl. destruct Hpl as [[[Hsub Hsg] Hpoms] _].
     set (poms := t_poms t ++ map class_pom (t_classes t)).
@@ -257,7 +297,7 @@ Section TmEquiv2.
       split; [intros (s & pm & p & pt & o & ot & g & _ & [] & _)|].
       intros (rl & Hrl & Hx). exfalso. rewrite base_rules_unfold in Hb. cbv zeta in Hb. rewrite Eprep in Hb. cbn [map] in Hb.
       destruct (negb _) in Hb; [discriminate|]. injection Hb as <-. destruct Hrl as [<-|[]].
-      unfold spec_rule_line in Hx. cbn [mk_rule r_pk r_pv spec_lex] in Hx. destruct (spec_lex scfg _ _ _ [] sr) in Hx; discriminate. }
+      unfold doc_rule_line, spec_parts, spec_po, spec_po_gen in Hx. cbn [mk_rule r_pk r_pv spec_lex] in Hx. destruct (spec_lex scfg _ _ _ [] sr) in Hx; discriminate. }
     assert (Hne : t_poms (prepare_tm t) <> []) by (rewrite Eprep; discriminate).
     destruct (base_rules_in d (prepare_tm t) rs Hb Hne) as [Hv Hin]. cbv zeta in Hin.
     set (a := negb (t_nonasserted (prepare_tm t)) && _) in Hin. set (stt := tt_final (tt_early (t_subj (prepare_tm t)))) in *.
@@ -286,7 +326,7 @@ Section TmEquiv2.
           rewrite effective_plain by exact Po. cbn [p_objs]. apply in_flat_map. exists o. split; auto.
           unfold obj_rows. rewrite (plain_obj_not_parent o Plo). apply in_map_iff. exists (ld, ldk, ldv). split; auto.
           unfold ott_of. rewrite (plain_obj_not_parent o Plo). now rewrite tt_object_is_spec.
-      + rewrite (rule_line_is_tuple scfg Hnq (prepare_tm t) a stt p o ld ldk ldv gm sr Hsub Plp Plo Plg).
+      + rewrite (rule_line_is_tuple scfg (prepare_tm t) a stt p o ld ldk ldv gm sr Hsub Plp Plo Plg).
         unfold tuple_line. cbn [prepare_tm complete_default_graph sgraphs_to_pom class_to_pom t_subj]. rewrite Esl, Epl, Eol, Esuf, Egt. reflexivity.
     - intros (rl & Hrl & Hx). apply Hin in Hrl as (pm' & Hpm' & Hr). rewrite Eprep in Hpm'. apply in_map_iff in Hpm' as (pm & <- & Hpm).
       pose proof (Hpp pm Hpm) as Ppm. unfold plain_pom in Ppm. rewrite !andb_true_iff in Ppm. destruct Ppm as [[Pp Po] Pg].
@@ -297,7 +337,7 @@ Section TmEquiv2.
       unfold ott_of in E. rewrite (plain_obj_not_parent o' Plo), tt_object_is_spec in E. injection E as <- <- <- <- <-.
       assert (Plp : plain_map p = true) by (rewrite forallb_forall in Pp; auto).
       pose proof (placed_graphs_plain t pm gm Hsg Pg Hgm) as Plg.
-      rewrite (rule_line_is_tuple scfg Hnq (prepare_tm t) a stt p o' ld' ldk' ldv' gm sr Hsub Plp Plo Plg) in Hx.
+      rewrite (rule_line_is_tuple scfg (prepare_tm t) a stt p o' ld' ldk' ldv' gm sr Hsub Plp Plo Plg) in Hx.
       unfold tuple_line in Hx. cbn [prepare_tm complete_default_graph sgraphs_to_pom class_to_pom t_subj] in Hx.
       destruct (spec_lex scfg (m_kind (t_subj t)) (m_value (t_subj t)) stt [] sr) as [sl|] eqn:Esl; [|discriminate].
       destruct (spec_lex scfg (m_kind p) (m_value p) TIri [] sr) as [pl|] eqn:Epl; [|discriminate].
@@ -386,17 +426,16 @@ Proof.
 Qed.
 Lemma number_from_all {A} (l : list A) : forall k0 x, In x l -> exists k, In (k, x) (number_from k0 l).
 Proof. induction l as [|y l IH]; intros k0 x; simpl; [tauto|]. intros [->|H]; [exists k0; auto|]. destruct (IH (S k0) x H) as (k & Hk). eauto. Qed.
-Lemma spec_rule_line_with_id scfg k r sr : spec_rule_line scfg (with_id k r) sr = spec_rule_line scfg r sr.
+Lemma doc_rule_line_with_id scfg k r sr : doc_rule_line scfg (with_id k r) sr = doc_rule_line scfg r sr.
 Proof. reflexivity. Qed.
 
 Section DocEquiv.
   Variables (scfg : scfg) (fe : fenv) (tables : ustr -> stable).
-  Hypothesis Hnq : s_nquads scfg = true.
 
   (* the generation rules read on the document and read rule by rule on its normalised table give the same statements *)
   Theorem doc_spec_is_rule_spec d0 rules : forallb plain_tm d0 = true -> normalise d0 = Ok rules ->
     forall x, In x (spec_lines scfg fe d0 tables) <->
-              exists rl sr, In rl rules /\ r_asserted rl = true /\ In sr (tables (r_src rl)) /\ spec_rule_line scfg rl sr = Some x.
+              exists rl sr, In rl rules /\ r_asserted rl = true /\ In sr (tables (r_src rl)) /\ doc_rule_line scfg rl sr = Some x.
   Proof.
     intros Hpl Hn. unfold normalise in Hn. set (d := prepare d0) in *.
     destruct (forallb _ d) in Hn; [discriminate|].
@@ -430,7 +469,7 @@ Section DocEquiv.
     intro x. unfold spec_lines. rewrite mem_dedup, in_flat_map. split.
     - intros (t & Ht & Hx). destruct (asserted t) eqn:Ea; [|contradiction]. apply in_flat_map in Hx as (sr & Hsr & Hx).
       destruct (Tm t Ht) as (rs & Hrs & Hb).
-      destruct (proj1 (tm_lines_equiv scfg fe d0 tables d Hnq t sr rs (Pl t Ht) Hb x) Hx) as (rl0 & Hrl0 & Hline).
+      destruct (proj1 (tm_lines_equiv scfg fe d0 tables d t sr rs (Pl t Ht) Hb x) Hx) as (rl0 & Hrl0 & Hline).
       destruct (plain_base_rules d t rs (Pl t Ht) Hb rl0 Hrl0) as (_ & Hsrc & Hass).
       destruct (base_rules_asserted d (prepare_tm t) rs rl0 Hb Hrl0) as [_ Htm].
       assert (Hc : In rl0 (concat base)) by (apply in_concat; eauto).
@@ -443,8 +482,8 @@ Section DocEquiv.
     - intros (rl & sr & Hrl & Has & Hsr & Hline). apply Mid in Hrl as (k & r & Hkr & _ & ->).
       apply number_from_in in Hkr. apply in_concat in Hkr as (rs & Hrs & Hr). destruct (Rs rs Hrs) as (t & Ht & Hb).
       destruct (plain_base_rules d t rs (Pl t Ht) Hb r Hr) as (_ & Hsrc & Hass).
-      cbn [with_id r_asserted r_src] in Has, Hsr. rewrite spec_rule_line_with_id in Hline.
+      cbn [with_id r_asserted r_src] in Has, Hsr. rewrite doc_rule_line_with_id in Hline.
       exists t. split; auto. rewrite <- Hass, Has. apply in_flat_map. exists sr. split; [now rewrite <- Hsrc|].
-      apply (tm_lines_equiv scfg fe d0 tables d Hnq t sr rs (Pl t Ht) Hb). eauto.
+      apply (tm_lines_equiv scfg fe d0 tables d t sr rs (Pl t Ht) Hb). eauto.
   Qed.
 End DocEquiv.
